@@ -1,11 +1,14 @@
 import Gms.Driver.Proto
 import Gms.Model.JsonQuote
 import Gms.Model.JsonPath
+import Gms.Model.JsonNum
 open Gms.Proto
 
 /-! Line-protocol driver for C32 (core-only).
 
   (q xS)  (uq xS)  (dec xS)
+  (num NEG MANT EXP10 FLOATY)   — number literal ±MANT·10^EXP10, FLOATY: the text has . e E
+  (numrt xTEXT)                  — model-free round trip of a document text (oracle only)
   (print DOC)  (upd MODE DOC PATH VAL)  (sqlupd MODE DOC PATH VAL)  (look DOC PATH)  (es DOC PATH VAL)  (cmp ..)
   DOC  = n | t | f | (i N) | (s xS) | (a DOC*) | (o (xK DOC)*)
   PATH = ((k xK) | (n N) | (l) | (m N))*
@@ -91,6 +94,24 @@ def lookRegion (p : List Leg) (d : Json) : String :=
 
 end P
 
+namespace N
+open Gms.JsonNum
+
+def obs (n : Num) (printed : Bool × Nat) (k2 : String) (v : Int) : String :=
+  n.kind ++ ":" ++ showText printed ++ ":" ++ k2 ++ ":" ++ toString v
+
+/-- (implModel observation, Spec observation, region) of one literal. -/
+def answerLit (l : Lit) : String :=
+  let n := convert l
+  let p := printNum n
+  let r := reparse n
+  let i := obs n p r.kind r.val
+  let sp := obs n p r.kind n.val
+  if i == sp then answer i
+  else answer i sp (if bigFloatReparsedAsInteger n then "big_float_reparsed_as_integer" else "-")
+
+end N
+
 open Gms.JsonQuote Gms.JsonPath in
 def handle (p : List Sexp) : String :=
   match p with
@@ -109,6 +130,10 @@ def handle (p : List Sexp) : String :=
     match s.bytes? with
     | some s => answer (toString ((decodeSize s).getD 0))
     | none => answer "bad-case"
+  | [.list [.atom "num", ng, m, e, fl]] =>
+    match ng.nat?, m.nat?, e.nat?, fl.nat? with
+    | some ng, some m, some e, some fl => N.answerLit ⟨ng == 1, m, e, fl == 1⟩
+    | _, _, _, _ => answer "bad-case"
   | [.list [.atom "print", d]] =>
     match P.parseDoc d with
     | some d => answer (hex (printJson d))
@@ -140,6 +165,7 @@ def handle (p : List Sexp) : String :=
         if i == sp then answer i else answer i sp (P.lookRegion pth r)
     | _, _, _ => answer "bad-case"
   | [.list (.atom "cmp" :: _)] => answer "-"
+  | [.list [.atom "numrt", _]] => answer "-"
   | _ => answer "bad-case"
 
 def main : IO Unit := runPure handle
